@@ -21,6 +21,8 @@ partial def lexAux : List Char → Array Tok → Except String (Array Tok)
   | [], acc => .ok acc
   | c :: rest, acc =>
     if c.isWhitespace then lexAux rest acc
+    else if c == '-' && (match rest with | '-' :: _ => true | _ => false) then
+      lexAux (rest.dropWhile (· != '\n')) acc           -- a line comment
     else if isIdStart c then
       let word := (c :: rest).takeWhile isIdChar
       lexAux ((c :: rest).dropWhile isIdChar) (acc.push (.id (String.ofList word)))
@@ -79,6 +81,9 @@ def ident : P String := do
 def literal : P String := do
   match ← peek with
   | some (.lit raw) => advance; return raw
+  | some (.id s) =>
+    -- boolean constants in an IN list (bool-backed enums), kept verbatim
+    if upper s == "TRUE" || upper s == "FALSE" then do advance; return s else fail "expected a literal"
   | _ => fail "expected a literal"
 
 /-- the content of a text literal token -/
